@@ -826,7 +826,7 @@ func plan(c *hx.Ctx) *hx.Plan {
 	if c.Prop == "C08" {
 		return planC08(c)
 	}
-	maxLen := 5
+	maxLen := 4 // every soup is a distinct reflect.StructOf type, which the runtime keeps for ever: length 5 (1.2e7 soups x forms x splits) needs more than 60 GB
 	if c.Quick() {
 		maxLen = 3
 	}
